@@ -22,7 +22,7 @@ import facts  # noqa: E402
 CFGS = {
     # name -> cargo check arguments
     'ws': ['--workspace', '--lib'],
-    'ser': ['-p', 'rten-serialize', '--features', 'npy,safetensors', '--lib'],
+    'ser': ['-p', 'rten-serialize', '--features', 'npz,safetensors', '--lib'],
     'min_none': ['-p', 'rten', '--no-default-features', '--lib'],
     'min_rten': ['-p', 'rten', '--no-default-features', '--features', 'rten_format', '--lib'],
     'min_onnx': ['-p', 'rten', '--no-default-features', '--features', 'onnx_format', '--lib'],
@@ -143,6 +143,11 @@ class Ctx:
     def floor(self, rule, what, count, floor):
         return self.inst(rule, 'floor:' + what, count >= floor,
                          '%s: %d instances (floor %d)' % (what, count, floor), nontrivial=False)
+
+    def note(self, text):
+        """informational remark recorded in the evidence (never a violation), e.g. a reviewed-table entry that is no longer needed"""
+        self.notes.append(text)
+        print('note: ' + text, file=sys.stderr)
 
     def count(self, name, n=1):
         self.counters[name] = self.counters.get(name, 0) + n
